@@ -232,7 +232,53 @@ def run_sched(ctx, build=True, per_theorem=None):
     ctx.cov['rule'] = (ctx.cov.get('rule') + ' | ' if ctx.cov.get('rule') else '') + rule
     for s in data['samples'][:2]:
         ctx.sample({'sched_run': s})
+    run_sweep(ctx, hitems, info)
     return info
+
+
+def run_sweep(ctx, hitems, info):
+    """harness/c15_sweep.py: direct float sweep of the adaptive writes on the real code (AIWPSO: every p of every n
+    over a decimal grid through the real helper; IHS: term sweep + real runs), keyed by circumstance."""
+    rc, data, out = ctx.run_harness_json('c15_sweep.py', payload={'items': hitems, 'mode': 'run'}, timeout=1500)
+    if data is None:
+        ctx.oblige('harness c15_sweep.py ran', False, out[-3000:])
+        return
+    st = data['stats']
+    info['sweep'] = {'stats': st, 'per_key': data['per_key']}
+    has_aiw = any(it['opt'] == 'AIWPSO' for it in hitems)
+    ctx.oblige('harness c15_sweep.py ran (%d direct AIWPSO writes%s, %d IHS term evaluations, %d IHS runs)'
+               % (st['aiw_calls'], '' if st['aiw_direct'] else ' through forced runs', st['ihs_term_evals'], st['ihs_runs']),
+               (st['aiw_calls'] > 0 or not has_aiw) and st['fallback_failed'] == 0,
+               'no AIWPSO write could be exercised (fallback runs failed: %d)' % st['fallback_failed'])
+    oracle_recs = [r for r in data['records'] if r['found_input']]
+    corr_recs = [r for r in data['records'] if not r['found_input']]
+    for r in oracle_recs:
+        ctx.report(r['key'], r['what'], r['replay'])
+    n_corr = sum(v for k, v in data['per_key'].items() if k.startswith('corr:'))
+    ctx.oblige('validation (direct sweep): regenerated term = real write on %d AIWPSO (w_min, w_max, n, p) tuples and %d IHS steps'
+               % (st['aiw_corr'], st['ihs_agree']), n_corr == 0, '\n'.join(r['what'] for r in corr_recs[:5]))
+    if corr_recs and not [r for r in oracle_recs if not known(ctx, r['key'])]:
+        for r in corr_recs[:3]:
+            ctx.report(r['key'], 'regenerated schedule and implementation disagree (the property oracle passed): ' + r['what'],
+                       r['replay'], found_input=False)
+    n_out = sum(st['classes'].values())
+    ctx.count(st['aiw_calls'] + st['aiw_corr'] + st['ihs_term_evals'] + st['ihs_oracle_checks'], st['aiw_calls'] - st['rejected'])
+    dist = dict(ctx.cov.get('distribution') or {})
+    dist['sweep/aiwpso-direct-writes'] = st['aiw_calls']
+    dist['sweep/ihs-term-evaluations'] = st['ihs_term_evals']
+    dist['sweep/ihs-real-runs'] = st['ihs_runs']
+    dist['sweep/outside-range-writes'] = n_out
+    for k, v in st['classes'].items():
+        dist['sweep/class/' + k] = v
+    for k, v in (st.get('ihs_predicted') or {}).items():
+        dist['sweep/ihs-predicted/' + k] = v
+    ctx.cov['distribution'] = dist
+    ctx.cov['rule'] = (ctx.cov.get('rule') or '') + (' | direct sweep: AIWPSO (w_min <= w_max over a 1-3 decimal grid incl. w_min == w_max, '
+                                                     'seeded random pairs) x n_agents 1..12 x every p in 0..n through the real helper holding '
+                                                     'the write; IHS PAR/bw regenerated terms over a decimal grid x n_iterations 1..64 x every t, '
+                                                     'predicted excursions and a grid sample re-run on the real IHS; non-trivial = every distinct '
+                                                     '(w_min, w_max, n, p) tuple')
+    ctx.sample({'sweep_classes_outside_range': st['classes'] or 'none'})
 
 
 def harness_items(items, found):
@@ -270,11 +316,17 @@ def replay_sched(ctx, doc):
         print('translator crashed: %r' % (ex,))
         return 2
     hitems = harness_items(items, found)
-    if not [it for it in hitems if it['opt'] == rp['case']['opt']]:
-        print('%s has no adaptive write any more: nothing to observe' % rp['case']['opt'])
+    ropt = 'AIWPSO' if rp.get('sub') == 'aiw' else rp['case'].get('opt')
+    if not [it for it in hitems if it['opt'] == ropt]:
+        print('%s has no adaptive write any more: nothing to observe' % ropt)
         return 0
-    rc, data, out = ctx.run_harness_json('c15_sched.py', payload={'items': hitems, 'mode': 'replay', 'case': rp['case'],
-                                                                   'key': rp.get('key')}, timeout=300)
+    script = 'c15_sweep.py' if rp.get('sub') == 'aiw' else 'c15_sched.py'
+    rc, data, out = ctx.run_harness_json(script, payload={'items': hitems, 'mode': 'replay', 'case': rp['case'],
+                                                          'key': rp.get('key')}, timeout=300)
+    if not path and doc.get('key') is not None:      # the caller passed the json: the file name ctx.report gave it
+        import hashlib
+        h = hashlib.sha256((doc['key'] + json.dumps(rp, sort_keys=True, default=str)).encode()).hexdigest()[:10]
+        path = os.path.join(core.REPLAYS, '%s-%s.json' % (ctx.pid, h))
     if data is None:
         print(out[-2000:])
         return 2
